@@ -48,6 +48,9 @@ struct Kf {
 
 #[derive(Clone)]
 struct Tl {
+    /// an additional easing path written *earlier* in the argument list than `easing`; the later
+    /// one is the one in force (like calling `.default_easing(..)` twice)
+    earlier_easing: Option<usize>,
     duration: Option<(TimeLit, bool)>, // (literal, written with `for`)
     delay: Option<TimeLit>,
     easing: Option<usize>,
@@ -229,7 +232,13 @@ fn gen_tl(rng: &mut Rng, allow_default_body: bool, need_keyframe: bool) -> Tl {
     if rng.chance(0.6) {
         rng.shuffle(&mut arg_order);
     }
+    let earlier_easing = if easing.is_some() && !back && rng.chance(0.12) {
+        Some(rng.usize_below(26))
+    } else {
+        None
+    };
     Tl {
+        earlier_easing,
         duration,
         delay,
         easing,
@@ -242,6 +251,9 @@ fn gen_tl(rng: &mut Rng, allow_default_body: bool, need_keyframe: bool) -> Tl {
 
 fn render_tl_macro(tl: &Tl) -> String {
     let mut parts: Vec<String> = Vec::new();
+    if let Some(e) = tl.earlier_easing {
+        parts.push(format!("Easing::{}", EASINGS[e]));
+    }
     for idx in &tl.arg_order {
         match *idx {
             0 => {
@@ -430,6 +442,9 @@ fn gen_animator(rng: &mut Rng) -> Animator {
             }
             if t.easing.is_some() {
                 features.push("easing-path");
+            }
+            if t.earlier_easing.is_some() {
+                features.push("easing-given-twice");
             }
             if t.kfs.iter().any(|k| matches!(&k.pos, Pos::Pct(t, _) if t.contains('.'))) {
                 features.push("float-percent");
